@@ -356,8 +356,13 @@ class LSMTree(Entity):
         if self._wal is not None:
             seq = self._wal._next_sequence
             self._wal_in_flight.add(seq)
+            crash_count = self._crash_count
             yield from self._wal.append(key, value)
             self._wal_in_flight.discard(seq)
+            if crash_count != self._crash_count:
+                # Power was lost mid-write: the write died with the process.
+                # If its log entry was already durable, recovery replayed it.
+                return
             self._total_wal_writes += 1
 
         # Memtable put
@@ -471,8 +476,12 @@ class LSMTree(Entity):
         if self._wal is not None:
             seq = self._wal._next_sequence
             self._wal_in_flight.add(seq)
+            crash_count = self._crash_count
             yield from self._wal.append(key, _TOMBSTONE)
             self._wal_in_flight.discard(seq)
+            if crash_count != self._crash_count:
+                # Power was lost mid-delete: see put().
+                return
             self._total_wal_writes += 1
 
         is_full = yield from self._memtable.put(key, _TOMBSTONE)
